@@ -53,6 +53,8 @@ var (
 	vpClaimsKeyLog [][]byte
 	vpIdpToken     string
 	vpIdpCalls     int
+	vpIdpHonoured  bool // some request to the IdP about the presented token was answered positively
+	vpIdpTimeouts  int // requests to the IdP that ran into the caller's deadline
 	vpNowCalls     int
 	// claims carried by the token under test (symbolic)
 	vpTokIssuer  string
@@ -74,6 +76,7 @@ func vpResetJose() {
 	vpParseCalls, vpSigAlgs, vpKeyAlgs, vpEncAlgs = 0, nil, nil, nil
 	vpTokKind, vpTokSignedBy, vpTokEncBy, vpTokAlgs = 0, 0, 0, nil
 	vpClaimsKeyLog, vpIdpToken, vpIdpCalls = nil, "", 0
+	vpIdpTimeouts, vpIdpHonoured = 0, false
 	// the clock keeps running across harness set-up: the presentation happens at vpCurTime, which is
 	// not before anything the package did at initialisation
 	if !vpInitCaptured {
@@ -437,8 +440,16 @@ func vpUserInfo(p *oidc.Provider, ctx context.Context, ts oauth2.TokenSource) (*
 		vpIdpToken = v.tok.AccessToken
 	}
 	if vpIdpPerCall {
-		// history harness: an independent verdict per presentation
 		vpIdpAsked[vpPresentation] = true
+	}
+	// an identity provider that does not answer before the caller's deadline (if the caller set one)
+	if _, has := ctx.Deadline(); has && vpBool("idp-silent-until-the-deadline-"+vpItoa(vpIdpCalls)) {
+		vpCtxExpire(ctx)
+		vpIdpTimeouts++
+		return nil, context.DeadlineExceeded
+	}
+	if vpIdpPerCall {
+		// history harness: an independent verdict per presentation
 		if !vpBool("idp-honours-token-" + vpItoa(vpIdpCalls)) {
 			return nil, errors.New("vp: IdP refuses the access token")
 		}
@@ -447,6 +458,7 @@ func vpUserInfo(p *oidc.Provider, ctx context.Context, ts oauth2.TokenSource) (*
 	if !vpBool("idp-honours-token") {
 		return nil, errors.New("vp: IdP refuses the access token")
 	}
+	vpIdpHonoured = true
 	return &oidc.UserInfo{Subject: vpStringN("idp-sub", 2)}, nil
 }
 
